@@ -92,6 +92,7 @@ func runDump(repo, key, mode string) int {
 	for _, e := range eng.parseErrors {
 		fmt.Println("PARSE ERROR:", e)
 	}
+	eng.tier = os.Getenv("VCGO_TIER")
 	vc := newVC(eng, modeByName(mode))
 	var rep *FuncReport
 	if strings.Contains(key, ".lemma.") {
@@ -195,6 +196,7 @@ func runCheck(repo, id, tier string) int {
 		// the tree does not build with the tag on: report as machinery error
 		return 2
 	}
+	eng.tier = tier
 	replayDir := filepath.Join(verifDir, "replays", id)
 	os.RemoveAll(replayDir)
 	os.MkdirAll(replayDir, 0o755)
